@@ -12,6 +12,11 @@ instance reproduces the C++ bit for bit.
 * `paramSet` is `Parameter::setValue` (Parameter.cpp:55-64) of a parameter with no
   constraint and precision 0: the new value is stored only if `|value - value_| > 0`
   (so a NaN is never stored, and `-0.0` does not replace `0.0`).
+* The `Parameter` constructor (Parameter.cpp:34-43, after the C01 `fix:` "Parameter constructor
+  checks the initial value against the constraint") stores the initial value directly -- it no
+  longer goes through `setValue` from 0 -- so a NaN initial value (e.g. `atanh` of an argument
+  below -1 when the value is closer than TINY to an open bound) *is* stored by the constructors
+  `RT.new`, `IT.new`, `TP.placebo`.
 * `std::pow(e, 2)` is written `sq e = e * e`: g++ compiles `pow(x, 2)` to `x * x`
   (checked in the generated assembly at -O1), over the reals the two agree
   (`Real.rpow_two`); `std::pow(scale_, 3)` stays a call to libm `pow`.
@@ -60,7 +65,7 @@ def setOriginal (t : RT α) (value : α) : Option (RT α) :=
 
 /-- the constructor (TransformedParameter.h:100-108): `Parameter(name, 1.)` then `setOriginalValue` -/
 def new (value bound : α) (positive : Bool) (scale : α) : Option (RT α) :=
-  setOriginal { scale := scale, bound := bound, positive := positive, x := paramSet zero one } value
+  setOriginal { scale := scale, bound := bound, positive := positive, x := one } value
 
 /-- `getOriginalValue` (TransformedParameter.h:120-128) -/
 def getOriginal (t : RT α) : α :=
@@ -105,7 +110,7 @@ def fwd (pi scale lo hi : α) (hyper : Bool) (value : α) : α :=
 
 /-- the constructor (TransformedParameter.h:186-195): no check of the value -/
 def new (pi value lo hi scale : α) (hyper : Bool) : IT α :=
-  { scale := scale, lo := lo, hi := hi, hyper := hyper, x := paramSet zero (fwd pi scale lo hi hyper value) }
+  { scale := scale, lo := lo, hi := hi, hyper := hyper, x := fwd pi scale lo hi hyper value }
 
 /-- `setOriginalValue` (TransformedParameter.h:200-206) -/
 def setOriginal (pi : α) (t : IT α) (value : α) : Option (IT α) :=
@@ -142,7 +147,7 @@ inductive TP (α : Type) where
 
 namespace TP
 
-def placebo (value : α) : TP α := .p (paramSet zero value)
+def placebo (value : α) : TP α := .p value
 
 /-- `getValue()` -/
 def x : TP α → α
